@@ -192,6 +192,37 @@ def check_panel(case, ctx):
     ctx.close('Panel.freq==analysis.freq', np.real(p2.eigvals[:kk]), np.real(ev[:kk]), 1e-6, bucket='Panel.freq!=analysis.freq')
 
 
+def check_redefine(case, ctx):
+    """Panel.freq on ONE object before and after its density / size were edited: the second answer must be a set of eigenpairs of
+    the matrices of the NEW definition (and equal the answer of a fresh object)."""
+    name = 'Panel.freq.redefined[%s]' % case['model']
+    p = pkg.make_panel(case)
+    p.num_eigvalues = 3
+    ctx.label('model:' + case['model'], 'sparse' if case['sparse'] else 'dense')
+    new = dict(case, mu=case['mu'] * case['mu_fac'], a=case['a'] * case['a_fac'])
+    q = pkg.make_panel(new)
+    with package(name + '.matrices'):
+        K = q.calc_k0(silent=True)
+        M = q.calc_kM(silent=True)
+    Kd, Md = dense(K), dense(M)
+    active = np.where(np.abs(np.diag(Md)) > 0)[0]
+    if active.size < 8:
+        ctx.exclude('fewer than 8 active amplitudes')
+        return
+    ev0 = np.linalg.eigvalsh(Kd[np.ix_(active, active)])
+    if ev0[0] <= 1e-9 * ev0[-1]:
+        ctx.exclude('K not positive definite on the active amplitudes (rigid-body modes)')
+        return
+    ctx.nontrivial = True
+    with package(name + '.first'):
+        p.freq(silent=True, sparse_solver=case['sparse'])
+    p.mu = new['mu']
+    p.a = new['a']
+    with package(name):
+        p.freq(silent=True, sparse_solver=case['sparse'])
+    judge(ctx, name, K, M, active, p.eigvals, p.eigvecs, 3, True, sparse=case['sparse'], tol=1e-5, full_spectrum=False)
+
+
 def check_bay(case, ctx):
     """(k0, kM) of stiffened bays and of panel assemblies through analysis.freq."""
     from compmech.analysis import freq
@@ -274,6 +305,10 @@ SUBS = [
              'reduced_dof on/off, k 1..25; non-trivial = null rows or clustered spectrum', shards_quick=16),
     Sub('panel_pairs', _panel_strategy, check_panel, quick=200, thorough=3000,
         rule='(k0, kM) of generated panel models through analysis.freq and Panel.freq; non-trivial = restrained amplitudes present',
+        shards_quick=16),
+    Sub('redefine', lambda tier: _panel_strategy(tier).map(lambda c: dict(c, mu_fac=1. + (c['k'] % 5), a_fac=1. + 0.1 * (c['k'] % 3))),
+        check_redefine, quick=64, thorough=1000,
+        rule='Panel.freq on one object, density and length edited, Panel.freq again: eigenpairs of the matrices of the new definition',
         shards_quick=16),
     Sub('bay_pairs', _bay_strategy, check_bay, quick=64, thorough=1000,
         rule='(k0, kM) of stiffened bays with 0..2 stiffeners of the three kinds through analysis.freq; non-trivial = at least one stiffener',
